@@ -297,7 +297,7 @@ def check_program(items):
     buf = io.StringIO()
     try:
         with contextlib.redirect_stdout(buf):
-            with kernel.time_limit(20):
+            with kernel.time_limit(120):
                 tbl = infer_kinds(dag, registry())
     except kernel.Budget:
         return ("budget", "kind inference did not terminate"), "hang", None
